@@ -64,8 +64,11 @@ class Replace(Edit):
 class MatchFnClosures(Edit):
     """rule E3 for the closures handed to `MatchFn::new`: the parameter is typed, `x.inner()(e)` is read as `x.__call(e)`,
     and the closure's `ensures` is generated from its own body (`x.__call(e)` -> `x.sem()(e)`): self-generated condition
-    over straight-line boolean code. Closures that call anything else are left alone (they must be covered otherwise)."""
-    pass
+    over straight-line boolean code. Closures that call anything else are left alone (they must be covered otherwise).
+    ctor: the constructor the closures are handed to (`MatchFn :: new`, or `Self :: new` inside `impl .. for MatchFunction`)."""
+
+    def __init__(self, ctor='MatchFn :: new'):
+        self.ctor = ctor
 
 
 class Wrap(Edit):
@@ -518,7 +521,15 @@ class Extractor:
         if arrow is not None and f.ret:
             rt_s = toks[arrow + 1].s
             rt_e = toks[ret_end_tok - 1].e
-            edits.append((rt_s, rt_e, '(%s: %s)' % (f.ret, text[rt_s:rt_e]), 'E8'))
+            # signature rewrites (E2) that fall inside the return type are folded into the naming edit
+            inner = sorted([e for e in edits if rt_s <= e[0] and e[1] <= rt_e and e[0] < e[1]], key=lambda e: e[0])
+            rt_txt, pos = '', rt_s
+            for e in inner:
+                rt_txt += text[pos:e[0]] + e[2]
+                pos = e[1]
+                edits.remove(e)
+            rt_txt += text[pos:rt_e]
+            edits.append((rt_s, rt_e, '(%s: %s)' % (f.ret, rt_txt), 'E8'))
         if spec:
             edits.append((toks[bo].s, toks[bo].s, '\n' + indent(spec, 8) + '\n    ', 'E8:spec'))
 
@@ -659,8 +670,10 @@ class Extractor:
         start_off = head_start
         end_off = toks[bc].e
         out = apply_edits(text, start_off, end_off, edits, what)
-        if not f.external_body and any(isinstance(e, MatchFnClosures) for e in f.edits):
-            out = self.matchfn_closures(out, what)
+        if not f.external_body:
+            for e in f.edits:
+                if isinstance(e, MatchFnClosures):
+                    out = self.matchfn_closures(out, what, e.ctor)
         attrs = f.attrs
         if f.external_body:
             attrs = (attrs + '\n' if attrs else '') + '#[verifier::external_body]'
@@ -672,11 +685,12 @@ class Extractor:
         return out, htxt, src.line_of(head_start)
 
 
-    def matchfn_closures(self, ftext, what):
+    def matchfn_closures(self, ftext, what, ctor='MatchFn :: new'):
         """rule E3 for closures handed to MatchFn::new (see class MatchFnClosures); works on the assembled function text"""
         toks = lex(ftext)
         pair = match_brackets(toks)
-        p = Pattern('MatchFn :: new ( $cl )')
+        p = Pattern(ctor + ' ( $cl )')
+        ctor_txt = ctor.replace(' ', '')
         edits = []
         n = 0
         for (ms, me, caps) in p.find_all(toks, pair, 0, len(toks)):
@@ -698,7 +712,7 @@ class Extractor:
             sp_body = ex_body.replace('.__call(', '.sem()(')
             n += 1
             rep = ('{ let ghost __g%d = |%s: char| %s; let __cl%d = %s|%s: char| -> (b: bool) ensures b == (%s) { %s }; '
-                   'proof { assert(mf_models(__cl%d, __g%d)); } MatchFn::new(__cl%d) }') % (n, par2, sp_body, n, mv, par2, sp_body, ex_body, n, n, n)
+                   'proof { assert(mf_models(__cl%d, __g%d)); } %s(__cl%d) }') % (n, par2, sp_body, n, mv, par2, sp_body, ex_body, n, n, ctor_txt, n)
             edits.append((toks[ms].s, toks[me - 1].e, rep, 'E3'))
             self.log('E3', what, ftext[toks[ms].s:toks[me - 1].e], rep)
         return apply_edits(ftext, 0, len(ftext), edits, what)
